@@ -111,9 +111,10 @@ def _space_job(job):
                 lead = x.shape[:-2]
                 # null space
                 try:
-                    if rank < n or not given:
-                        N = null_space(x, (n - rank) if given else None) if (n - rank > 0 or not given) else None
-                        if N is not None and rank < n:
+                    if True:
+                        # full rank included: the kernel is {0}, its basis has no columns (also with dim = 0 given)
+                        N = null_space(x, (n - rank) if given else None)
+                        if N is not None:
                             ok = N.shape == lead + (n, n - rank) and \
                                 close(np.swapaxes(N.conj(), -1, -2) @ N, np.broadcast_to(np.eye(n - rank), lead + (n - rank, n - rank))) and \
                                 np.max(np.abs(x @ N), initial=0) < 1e-8
@@ -123,9 +124,25 @@ def _space_job(job):
                                                 expected=f"orthonormal basis of the kernel, shape (.., {n}, {n - rank})",
                                                 observed={"shape": list(N.shape)}))
                 except Exception as e:  # noqa: BLE001
-                    if not (rank == n and not given):
-                        out.append(dict(site=f"null_space/dim_given={given}", stratum=f"singular-rank{rank}", case=case,
-                                        expected="a basis", observed=f"raised {type(e).__name__}: {e}"))
+                    out.append(dict(site=f"null_space/dim_given={given}", stratum=f"singular-rank{rank}", case=case,
+                                    expected="a basis", observed=f"raised {type(e).__name__}: {e}"))
+                # tall and wide matrices cut out of the square one (rank taken from numpy on the exact small integers)
+                if single and not given:
+                    for name, y in (("tall", x[:, : n - 1]), ("wide", x[: n - 1, :])):
+                        try:
+                            rk = int(np.linalg.matrix_rank(y))
+                            rows, cols = y.shape
+                            N = null_space(y)
+                            Q = orth(y) if rk > 0 else None
+                            ok = N.shape == (cols, cols - rk) and close(N.conj().T @ N, np.eye(cols - rk)) and np.max(np.abs(y @ N), initial=0) < 1e-8
+                            if ok and Q is not None:
+                                ok = Q.shape == (rows, rk) and close(Q.conj().T @ Q, np.eye(rk)) and np.max(np.abs(Q @ Q.conj().T @ y - y), initial=0) < 1e-8
+                            obs = {"null_space shape": list(N.shape), "orth shape": None if Q is None else list(Q.shape)}
+                        except Exception as e:  # noqa: BLE001
+                            ok, obs = False, f"raised {type(e).__name__}: {e}"
+                        if not ok:
+                            out.append(dict(site=f"null_space,orth/{name}", stratum=f"{name}-rank{rk}", case={**case, "M": y.tolist()},
+                                            expected=f"bases of shapes ({cols}, {cols - rk}) and ({rows}, {rk})", observed=obs))
                 if rank == 0:
                     continue
                 try:
